@@ -61,6 +61,24 @@ var rProtocol = &Rule{
 			})
 			c.Check(found, construct, fn.Pos(), "comma-ok probe of the exact single-method interface present", "the standard protocol method is no longer probed with its exact signature: foreign errors implementing it are not recognised")
 		}
+		// As: assignability is tested before the node's own As method (stdlib order)
+		if fn := p.Func("errutil", "As"); fn != nil {
+			var assign, probe ssa.Instruction
+			sx.EachInstr(fn, func(in ssa.Instruction) {
+				switch x := in.(type) {
+				case *ssa.Call:
+					if x.Call.IsInvoke() && x.Call.Method.Name() == "AssignableTo" {
+						assign = x
+					}
+				case *ssa.TypeAssert:
+					if it, ok := types.Unalias(x.AssertedType).Underlying().(*types.Interface); ok && it.NumMethods() == 1 && it.Method(0).Name() == "As" {
+						probe = x
+					}
+				}
+			})
+			ok := assign != nil && probe != nil && assign.Block() != probe.Block() && assign.Block().Dominates(probe.Block())
+			c.Check(ok, "errutil.As: assignability before the As method", fn.Pos(), "reflect AssignableTo test dominates the As-method probe", "As consults a node's own As method before testing whether the node itself is assignable: a different value than the standard errors.As is assigned")
+		}
 		// UnwrapOnce: Cause is tested before Unwrap (pkg/errors precedence), returns the method's result
 		if fn := p.Func("errbase", "UnwrapOnce"); fn != nil {
 			var order []string
@@ -282,11 +300,18 @@ var rForward = &Rule{
 	Name: "R-FORWARD",
 	Doc: "every exported function of the root package whose body is a single call into a sub-package forwards to the function of the same name (or its frozen documented alias: Cause→UnwrapAll, Unwrap→UnwrapOnce, Opaque→Handled, X→XWithDepth…) " +
 		"and passes its own parameters in their declared order (int depth parameters may be offset; that arithmetic is R-DEPTH's)",
-	Run: func(c *core.Ctx) {
+	Run: func(c *core.Ctx) { runForward(c, nil) },
+}
+
+func runForward(c *core.Ctx, keep func(name string) bool) {
+	{
 		p := c.P
 		n := 0
 		for _, fn := range publicAPI(p) {
 			if load.FnPkg(fn).Path() != load.ModPath {
+				continue
+			}
+			if keep != nil && !keep(fn.Name()) {
 				continue
 			}
 			var calls []*ssa.Call
@@ -313,7 +338,7 @@ var rForward = &Rule{
 			if a, ok := forwardAliases[fn.Name()]; ok {
 				want = a
 			}
-			if callee.Name() != want {
+			if callee.Name() != want && callee.Name() != fn.Name() {
 				c.Fail(name, fn.Pos(), fmt.Sprintf("forwards to %s, expected %s", load.FnName(callee), want))
 				continue
 			}
@@ -355,6 +380,10 @@ var rForward = &Rule{
 			c.Check(okOrder && used == len(fn.Params), name, fn.Pos(), "forwards to "+load.FnName(callee)+" with its parameters in order",
 				"forwarder does not pass all of its parameters in their declared order to "+load.FnName(callee))
 		}
-		c.Min("root-package forwarders", n, 90)
-	},
+		if keep == nil {
+			c.Min("root-package forwarders", n, 90)
+		} else {
+			c.Min("root-package forwarders in scope", n, 1)
+		}
+	}
 }
